@@ -380,6 +380,10 @@ func (m *ConnectMessage) Decode(src []byte) (int, error) {
 	}
 	total += n
 
+	if total != len(src) {
+		return total, fmt.Errorf("connect/Decode: %d unexpected bytes after the last field", len(src)-total)
+	}
+
 	m.dirty = false
 
 	return total, nil
